@@ -57,6 +57,11 @@ def reference_process_state() -> None:
     logging.getLogger().setLevel(logging.WARNING)
     logging.getLogger("chartparse").setLevel(logging.NOTSET)
     warnings.resetwarnings()
+    import decimal
+
+    decimal.DefaultContext.prec = 28
+    decimal.DefaultContext.rounding = decimal.ROUND_HALF_EVEN
+    decimal.setcontext(decimal.DefaultContext.copy())
 
 
 def enable_debug_logging() -> None:
